@@ -15,3 +15,4 @@ import BqlVerif.Properties.C12
 import BqlVerif.Properties.C20
 import BqlVerif.Properties.C19
 import BqlVerif.Properties.C16
+import BqlVerif.Properties.C11
